@@ -1,6 +1,7 @@
 package soyhtml
 
 import (
+	"fmt"
 	"math"
 	"math/rand"
 	"strings"
@@ -164,6 +165,9 @@ func funcRange(v []data.Value) data.Value {
 		limit = int(v[0].(data.Int))
 	}
 
+	if increment <= 0 {
+		panic(fmt.Errorf("range: the step must be positive, got %d", increment))
+	}
 	var indices data.List
 	var i = 0
 	for index := init; index < limit; index += increment {
